@@ -13,7 +13,7 @@ lines.append("Two catalogues, both run by `tools/sensitivity.py mutants [PID ...
              "`VERIF_REPO=<scratch> ./check <PID> quick`, exit 1 with a VIOLATION line expected; outcome of the last run in "
              "`mutants/RESULTS.json`):\n")
 lines.append("* `mutants/<ID>/*.diff` - hand-written while building each check (equivalent mutants were deleted, see section 6).")
-lines.append("* `seeded/<ID>[b-g]/` - written by independent sub-agents that were given only the property text and a scratch git "
+lines.append("* `seeded/<ID>[b-p]/` (16 rounds) - written by independent sub-agents that were given only the property text and a scratch git "
              "worktree (nothing from /verif) and asked for a change that needs something specific to manifest; every one was "
              "re-verified by `tools/import_seed.py` (repository suite still 146 passed with the change; the agent's `demo.py` exits 1 "
              "with it and 0 without) before it was kept.  `meta.json` records what it needs to manifest, what was run, and - when "
@@ -23,7 +23,7 @@ for mp in sorted(glob.glob(os.path.join(ROOT, "seeded", "*", "meta.json"))):
     m = json.load(open(mp))
     seeds[os.path.basename(os.path.dirname(mp))] = m
 tot = len(seeds)
-missed_first = [k for k, m in seeds.items() if m.get("first_attempt") == "missed"]
+missed_first = [k for k, m in seeds.items() if str(m.get("first_attempt", "")).startswith("missed")]
 rounds = sorted({(k[3:] or "a") for k in seeds})
 lines.append(f"Seeded changes: {tot} in {len(rounds)} rounds ({rounds[0]}-{rounds[-1]}); {tot - len(missed_first)} were caught by the check as it stood when the change "
              f"arrived, {len(missed_first)} were missed at first and led to the strengthening listed below; all are caught now "
@@ -47,7 +47,7 @@ for i in range(1, 21):
         status = ("caught by " + ",".join(c for c in r["clauses"] if c.startswith("C"))) if r and r["caught"] else ("NOT CAUGHT" if r else "not run")
         if str(m.get("status", "")).startswith("neutralised"):
             status = "no longer breaks the property (" + m["status"] + ")"
-        first = "" if m.get("first_attempt") != "missed" else f" (missed at first: {m.get('strengthening', '')})"
+        first = "" if not str(m.get("first_attempt", "")).startswith("missed") else f" (missed at first: {m.get('strengthening', '')})"
         what = re.sub(r"\s+", " ", (m.get("needs_to_manifest") or ""))
         what = re.sub(r"[|`*#]", "", what)[:150]
         cell.append(f"**{sname}** {what}... -> {status}{first}")
